@@ -176,6 +176,21 @@ def install(seed, max_steps=3000000, max_virtual=3000.0):
     _saved.append((IT, '__next__', IT.__dict__['__next__']))
     IT.next = next_
     IT.__next__ = next_
+
+    # record every attempt to set the outcome of an apply job (who, which job, what, whether it was the first)
+    AR = mpire.async_result.AsyncResult
+    orig_set = AR.__dict__['_set']
+
+    def set_(self, success, result):
+        try:
+            first = not self._ready_event.is_set()
+            sim.S.rec('settle', self.job_id, bool(success), type(result).__name__, first)
+        except Exception:
+            pass
+        return orig_set(self, success, result)
+
+    _saved.append((AR, '_set', orig_set))
+    AR._set = set_
     return S
 
 
